@@ -223,13 +223,23 @@ class SetEncoder(encoder.SequenceEncoder):
             if namedType:
                 options.update(ifNotEmpty=namedType.isOptional)
 
-            chunk = encodeFun(comp, compType, **options)
+            if (namedType and namedType.openType and
+                    namedType.asn1Object.typeId in (
+                        univ.SetOf.typeId, univ.SequenceOf.typeId)):
+                # SET OF / SEQUENCE OF open type: wrap every element
+                chunk = encodeFun(
+                    comp, compType,
+                    **dict(options,
+                           wrapType=namedType.asn1Object.componentType))
 
-            # wrap open type blob if needed
-            if namedType and namedType.openType:
-                wrapType = namedType.asn1Object
-                if wrapType.tagSet and not wrapType.isSameTypeWith(comp):
-                    chunk = encodeFun(chunk, wrapType, **options)
+            else:
+                chunk = encodeFun(comp, compType, **options)
+
+                # wrap open type blob if needed
+                if namedType and namedType.openType:
+                    wrapType = namedType.asn1Object
+                    if wrapType.tagSet and not wrapType.isSameTypeWith(comp):
+                        chunk = encodeFun(chunk, wrapType, **options)
 
             substrate += chunk
 
